@@ -164,6 +164,10 @@ class CallMixin:
             return self.call_function(fn, args, kwargs)
         if isinstance(fn, VBound):
             return self.call_method(fn.recv, fn.name, args, kwargs, node, frame)
+        if isinstance(fn, VPartial):
+            if fn.fn is None:
+                return NONE
+            return self.call_function(fn.fn, [fn.first] + list(args), kwargs)
         if isinstance(fn, VBuiltin):
             return self.call_builtin(fn.name, args, kwargs, node, frame)
         if isinstance(fn, VClass):
